@@ -706,6 +706,12 @@ def broadcast_shape(I, s1, s2):
         raise Unsupported('broadcast of different ranks')
     out = []
     for x, y in zip(s1, s2):
+        if isinstance(x, int) and x == 1:
+            out.append(y)
+            continue
+        if isinstance(y, int) and y == 1:
+            out.append(x)
+            continue
         r = equal(I, x, y)
         if r is True:
             out.append(x)
